@@ -64,7 +64,7 @@ func shapeOf(t types.Type, canon func(*types.TypeName) string, depth int) string
 		o := t.Obj()
 		s := o.Name()
 		if o.Pkg() != nil {
-			if strings.HasPrefix(o.Pkg().Path(), modPath) && !o.Exported() {
+			if strings.HasPrefix(o.Pkg().Path(), modPath) && renamable(o) {
 				s = canon(o)
 			}
 			s = o.Pkg().Path() + "." + s
@@ -106,7 +106,7 @@ func shapeOf(t types.Type, canon func(*types.TypeName) string, depth int) string
 		for i := 0; i < t.NumFields(); i++ {
 			f := t.Field(i)
 			n := "_"
-			if f.Exported() {
+			if !renamable(f) {
 				n = f.Name()
 			}
 			fs = append(fs, n+" "+shapeOf(f.Type(), canon, depth+1))
@@ -125,7 +125,16 @@ func shapeOf(t types.Type, canon func(*types.TypeName) string, depth int) string
 	return t.String()
 }
 
-// inventory lists the unexported identifiers of a package.
+// renamable: identifiers outside the module's public API — unexported ones,
+// and everything declared in an internal package.
+func renamable(o types.Object) bool {
+	if o == nil || o.Pkg() == nil {
+		return false
+	}
+	return !o.Exported() || strings.Contains(o.Pkg().Path()+"/", "/internal/")
+}
+
+// inventory lists the renamable identifiers of a package.
 func inventory(pk *packages.Package, canon func(*types.TypeName) string) []identEntry {
 	var out []identEntry
 	scope := pk.Types.Scope()
@@ -140,7 +149,7 @@ func inventory(pk *packages.Package, canon func(*types.TypeName) string) []ident
 				continue
 			}
 			tname := o.Name()
-			if !o.Exported() {
+			if renamable(o) {
 				tname = canon(o)
 				self := o
 				selfCanon := func(t *types.TypeName) string {
@@ -154,29 +163,29 @@ func inventory(pk *packages.Package, canon func(*types.TypeName) string) []ident
 			if named, ok := o.Type().(*types.Named); ok {
 				for i := 0; i < named.NumMethods(); i++ {
 					m := named.Method(i)
-					if !m.Exported() {
+					if renamable(m) {
 						add(identEntry{identInfo{Kind: "method", Owner: tname, Name: m.Name(), Shape: shapeOf(m.Type(), canon, 0)}, m})
 					}
 				}
 				if st, ok := named.Underlying().(*types.Struct); ok {
 					for i := 0; i < st.NumFields(); i++ {
 						f := st.Field(i)
-						if !f.Exported() && !f.Embedded() {
+						if renamable(f) && !f.Embedded() {
 							add(identEntry{identInfo{Kind: "field", Owner: tname, Name: f.Name(), Shape: shapeOf(f.Type(), canon, 0), Index: i}, f})
 						}
 					}
 				}
 			}
 		case *types.Const:
-			if !o.Exported() {
+			if renamable(o) {
 				add(identEntry{identInfo{Kind: "const", Name: o.Name(), Shape: shapeOf(o.Type(), canon, 0) + "=" + o.Val().ExactString()}, o})
 			}
 		case *types.Var:
-			if !o.Exported() {
+			if renamable(o) {
 				add(identEntry{identInfo{Kind: "var", Name: o.Name(), Shape: shapeOf(o.Type(), canon, 0)}, o})
 			}
 		case *types.Func:
-			if !o.Exported() {
+			if renamable(o) {
 				add(identEntry{identInfo{Kind: "func", Name: o.Name(), Shape: shapeOf(o.Type(), canon, 0)}, o})
 			}
 		}
@@ -217,7 +226,12 @@ func detectRenamings(pkgs []*packages.Package) (map[types.Object]string, []Renam
 	}
 	mapping := map[types.Object]string{}
 	var log []Renaming
-	for _, pk := range pkgs {
+	// internal packages first: the shapes of their importers mention their types
+	ordered := append([]*packages.Package(nil), pkgs...)
+	sort.SliceStable(ordered, func(i, j int) bool {
+		return strings.Contains(ordered[i].PkgPath, "/internal/") && !strings.Contains(ordered[j].PkgPath, "/internal/")
+	})
+	for _, pk := range ordered {
 		want := ref[pk.PkgPath]
 		if len(want) == 0 {
 			continue
@@ -352,7 +366,7 @@ func renameOverlay(pkgs []*packages.Package, mapping map[types.Object]string) (m
 				// capture check for package-level objects referenced by bare name
 				if _, isField := o.(*types.Var); !(isField && o.(*types.Var).IsField()) {
 					if fn, isFn := o.(*types.Func); !isFn || fn.Type().(*types.Signature).Recv() == nil {
-						if inner := pk.Types.Scope().Innermost(id.Pos()); inner != nil {
+						if inner := pk.Types.Scope().Innermost(id.Pos()); inner != nil && o.Pkg() == pk.Types {
 							if _, other := inner.LookupParent(to, id.Pos()); other != nil && other != o && other.Parent() != types.Universe {
 								if _, renamedToo := mapping[other]; !renamedToo {
 									err = fmt.Errorf("%s: the inventory name %q is taken by another declaration in scope", pk.Fset.Position(id.Pos()), to)
